@@ -40,7 +40,8 @@ def run(ctx):
                         "encode/persist are assumed not to raise in the integrity clause (a failing Logout send aborts disconnect: reported as a note, see DESIGN)"]
 
     it, outs = absint.inbound(repo, sink_raises=False)
-    ctx.extra["e9_inbound"] = {"steps": it.steps, "events": len(it.events), "final_configurations": len(outs)}
+    ctx.extra["e9_inbound"] = {"steps": it.steps, "events": len(it.events), "final_configurations": len(outs),
+                               "nondeterministic_conditions": sorted(it.unknown_conds)[:40]}
     ctx.evaluations += it.steps
 
     # ------------------------------------------------------------------ rule 1
